@@ -159,7 +159,7 @@ class Model:
                 "ext": error_extensions(path) if fault == "errx" else None,
             })
             return None
-        if fault == "boom":
+        if fault is not None and fault.startswith("boom"):
             exp.crash = True
             return None
         raw = self.world.field_value(
